@@ -13,7 +13,8 @@
 (***************************************************************************)
 EXTENDS Naturals, Sequences, FiniteSets, TLC, Json
 
-CONSTANTS Kinds, MaxLen
+CONSTANTS Kinds, MaxLen,
+          Seqs        \* the set of kind sequences to explore
 
 NameKinds == {"ARG", "UARG", "SH", "USH", "LG", "ULG", "SEQ", "USEQ", "OPTS"}
 OptionKinds == {"SH", "USH", "LG", "ULG", "SEQ", "USEQ", "OPTS"}
@@ -116,7 +117,7 @@ SeqsUpTo(n) == IF n = 0 THEN {<<>>}
 
 VARIABLES toks, phase, res
 vars == <<toks, phase, res>>
-Init == toks \in SeqsUpTo(MaxLen) /\ phase = "case" /\ res = 0
+Init == toks \in Seqs /\ phase = "case" /\ res = 0
 Run == /\ phase = "case" /\ phase' = "done" /\ res' = Parse(toks)
        /\ PrintT("PARSE " \o ToJson([t |-> toks, err |-> Parse(toks), wf |-> WellFormed(toks)]))
        /\ UNCHANGED toks
